@@ -40,6 +40,7 @@ fn main() {
         "events" => parse::dump_events(rest),
         "gram-cases" => gram::cases(rest),
         "gram-model-cases" => parse::model_cases(rest),
+        "gram-trace-record" => parse::record_model_traces(rest),
         "seq-cases" => gram::seq_cases(rest),
         "anz-cases" => anz::cases(rest),
         "inc-cases" => inc::cases(rest),
